@@ -20,7 +20,7 @@ def config_layout(eng):
             continue
         mir = eng.mirs[r['mir']]
         hdr = mir.headers[r['name']]
-        if '(_1: &Config) ->' not in hdr:
+        if not re.search(r'\(_1: &(config::)?Config\) ->', hdr):
             continue
         s, e = mir.index[r['name']]
         body = '\n'.join(mir.lines[s:e])
